@@ -15,12 +15,31 @@ invariant `InvOk` (0 <= modular_value < modulus).  In every structure the synthe
 `$size_in_*` / `$max_size_in_*` / `$min_size_in_*` are compared with the shape the model's
 `sizeExpr` assumes (`C05_size_bounds`), and an always-present field at a constant location
 must end within the annotated `$max_size_in_*` (model-free).  References to virtual fields
-are sent to the model as `(vref …)` nodes.
+are sent to the model as `(vref …)` nodes, `$present(f)` as `(present f cond)`; the model's
+typing discipline `tyOf` (hypothesis of `C05_no_crash`) must give every generated expression
+the type the real front end gave it (`TYOF`).
 
-Independent spec oracle (no model): every generated expression is evaluated over ℤ/Bool
-for enumerated (≤ 2^16 environments) or sampled leaf values; every aligned node's value
-must lie in γ(Python annotation); tightness of linear single-occurrence expressions is
-tested on corner environments.  This is also `search`.
+C++ types (arithmetic half of C04): `header_generator._cpp_integer_type_for_range` is compared
+with the model (`CPPTYPE`) on boundary ranges around ±2^31, ±2^32, ±2^63, 2^64 and on every
+range an annotation or an operation hull exhibited in the run.  For every module the front
+end accepts (testdata, corpus, edge enumeration, generated; the accepted `let`s of a partly
+rejected module are resubmitted on their own) the real header is generated and the template
+arguments `<IntermediateT, ResultT, ArgTs…>` of every Sum/Difference/Product/Maximum/Equal/…/
+Choice call found in the **header text** are compared with the model (`SIG` per node on the real
+annotations = `CppArith.nodeSig`; `SIGS` per generated expression = `CppArith.opSigs` on the
+model's own annotations): calls expected for the virtual fields ⊆ calls in the header ⊆ calls
+expected for all expressions of the module.
+
+Independent spec oracles (no model; also `search`): (1) every generated expression is
+evaluated over ℤ/Bool for enumerated (≤ 2^16 environments) or sampled leaf values; every
+aligned node's value must lie in γ(Python annotation); tightness of single-occurrence
+expressions and of `?:` with an independent two-valued condition is tested on corner
+environments; (2) "every run-time subexpression of an accepted module fits one 64-bit type
+together with its operands" is evaluated on the real annotations of every top-level
+expression in which `check_constraints` reported no 64-bit error (`gate_oracle`), over a
+deterministic enumeration of 64-bit-edge expressions (`edge_modules`) besides the random
+stream; (3) the C++ type chosen for a range must be the first of int32/uint32/int64/uint64
+holding it, and the header's template arguments must be those types (`spec_sig`).
 """
 import itertools
 import json
@@ -147,10 +166,16 @@ class Batch:
     def __init__(self):
         self.lines = []
         self.checks = []      # (index, expected, context dict, kind)
+        self.post = []        # callables(answers) run after the answers are in
 
     def ask(self, line, expected, ctx, kind):
         self.checks.append((len(self.lines), expected, ctx, kind))
         self.lines.append(line)
+
+    def query(self, line):
+        """a query whose answer is judged by a deferred callback; returns its index"""
+        self.lines.append(line)
+        return len(self.lines) - 1
 
 
 def _strip_ir(x):
@@ -356,13 +381,6 @@ def check_module_nodes(chk, text, ir, errs, batch, stats, origin, modules=None):
                 got.setdefault(best[1], []).append(k)
     for i, (rng, tr, ctx, top_expr) in enumerate(tops):
         kinds = sorted(got.get(i, []))
-        if not kinds:
-            # spec oracle for an *accepted* expression (property statement: "every run-time
-            # subexpression of an accepted module fits one 64-bit type together with its operands")
-            why = spec_gate(top_expr)
-            if why:
-                chk.violation("input", dict(ctx, observed="accepted by the 64-bit gate",
-                                            expected="rejected: " + why, tree=tr))
         want = "ok" if not kinds else "err " + ",".join(kinds)
         key = "gate:" + ("ok" if not kinds else "reject")
         stats[key] = stats.get(key, 0) + 1
@@ -430,6 +448,293 @@ def sorted_gate(ans):
     return ans
 
 
+# ------------------------------------------------------------------ model-free oracles on the real IR
+def iter_expressions(modules):
+    """(expression, is_top_level, enclosing attribute name, inside an enum value) for every
+    ir_data.Expression of the given modules, parents first."""
+    from compiler.util import ir_data, ir_data_fields
+    out = []
+
+    def walk(obj, inside_expr, attr, enumv):
+        if isinstance(obj, ir_data.Expression):
+            out.append((obj, not inside_expr, attr, enumv))
+            inside_expr = True
+        if isinstance(obj, ir_data.Attribute):
+            attr = obj.name.text if obj.name is not None else None
+        if isinstance(obj, ir_data.EnumValue):
+            enumv = True
+        for spec, value in ir_data_fields.fields_and_values(obj):
+            if value is None:
+                continue
+            if isinstance(value, (list, tuple)):
+                for v in value:
+                    if isinstance(v, ir_data.Message):
+                        walk(v, inside_expr, attr, enumv)
+            elif isinstance(value, ir_data.Message):
+                walk(value, inside_expr, attr, enumv)
+    for m in modules:
+        walk(m, False, None, False)
+    return out
+
+
+RANGES = set()       # every finite (min, max) an annotation or an operation hull exhibits in this run
+
+
+def finite_range(t):
+    if t.which_type != "integer":
+        return None
+    i = t.integer
+    if i.minimum_value in (None, "-infinity", "infinity") or i.maximum_value in (None, "-infinity", "infinity"):
+        return None
+    return int(i.minimum_value), int(i.maximum_value)
+
+
+def gate_oracle(chk, text, ir, errs, stats, origin, modules=None):
+    """Property statement, evaluated directly on the real annotations (no model): "every
+    run-time subexpression of an accepted module fits one 64-bit type together with its
+    operands".  Applied to every top-level expression in which `check_constraints` reported no
+    64-bit error (so also to the accepted expressions of a module that is rejected elsewhere);
+    `[static_requirements]` and enum values are never evaluated at run time."""
+    if modules is None:
+        modules = [m for m in ir.module if m.source_file_name == "m.emb"]
+    gk = gate_kinds_by_line(errs)
+    locs = [loc for lst in gk.values() for (loc, _k) in lst]
+    n_bad = 0
+    for expr, top, attr, enumv in iter_expressions(modules):
+        r = finite_range(expr.type)
+        if r is not None:
+            RANGES.add(r)
+        if expr.which_expression == "function" and not _const_type(expr.type):
+            rs = [finite_range(c.type) for c in [expr] + list(expr.function.args)]
+            rs = [x for x in rs if x is not None]
+            if rs:
+                RANGES.add((min(x[0] for x in rs), max(x[1] for x in rs)))
+        if not top or attr == "static_requirements" or enumv or expr.source_location is None:
+            continue
+        if atype_of(expr.type) is None:
+            continue
+        rng = str(expr.source_location)
+        if any(within(loc, rng) for loc in locs):
+            stats["spec_gate:rejected"] = stats.get("spec_gate:rejected", 0) + 1
+            continue
+        stats["spec_gate:accepted"] = stats.get("spec_gate:accepted", 0) + 1
+        why = spec_gate(expr)
+        if why:
+            n_bad += 1
+            if n_bad <= 2:
+                chk.violation("input", {"input": text, "origin": origin, "where": rng,
+                                        "observed": "accepted by the 64-bit gate",
+                                        "expected": "rejected: " + why, "tree": atree(expr)})
+    return n_bad
+
+
+# --- the C++ type chosen for a range -------------------------------------------------------
+CTYPES = [("i32", -2 ** 31, 2 ** 31 - 1), ("u32", 0, 2 ** 32 - 1),
+          ("i64", -TWO63, TWO63 - 1), ("u64", 0, TWO64 - 1)]
+CPPNAME = {"::std::int32_t": "i32", "::std::uint32_t": "u32", "::std::int64_t": "i64",
+           "::std::uint64_t": "u64", "bool": "bool", "None": "none", None: "none"}
+
+
+def spec_ctype(lo, hi):
+    """Documented choice: the first of int32_t, uint32_t, int64_t, uint64_t that can represent
+    every value of lo..hi; no type when neither 64-bit type can."""
+    for name, a, b in CTYPES:
+        if a <= lo and hi <= b:
+            return name
+    return "none"
+
+
+def edge_ranges():
+    pts = {0, 1, -1, 2, -2, 127, -128, 255, 65535, -32768}
+    for k in (31, 32, 63, 64):
+        for sgn in (1, -1):
+            for d in (-2, -1, 0, 1, 2):
+                pts.add(sgn * 2 ** k + d)
+    pts = sorted(pts)
+    return [(a, b) for a in pts for b in pts if a <= b]
+
+
+def check_cpptypes(chk, batch, stats, with_model, ranges):
+    """`header_generator._cpp_integer_type_for_range` on boundary ranges and on every range the
+    compiled modules exhibited: against the documented choice (model-free; a type that cannot
+    hold the range is silent overflow in the generated arithmetic) and against the model's
+    `cppTypeForRange` (op CPPTYPE)."""
+    from compiler.back_end.cpp import header_generator
+    bad = 0
+    for lo, hi in ranges:
+        try:
+            real = CPPNAME.get(header_generator._cpp_integer_type_for_range(lo, hi), "?")
+        except Exception as e:  # noqa: BLE001
+            real = "raise:" + type(e).__name__
+        want = spec_ctype(lo, hi)
+        stats["cpptype_ranges"] = stats.get("cpptype_ranges", 0) + 1
+        if real != want:
+            bad += 1
+            if bad <= 3:
+                holds = [n for n, a, b in CTYPES if a <= lo and hi <= b]
+                chk.violation("input", {
+                    "input": "range %d %d" % (lo, hi), "range": [str(lo), str(hi)],
+                    "observed": "_cpp_integer_type_for_range(%d, %d) = %s" % (lo, hi, real),
+                    "expected": "%s (first of int32_t, uint32_t, int64_t, uint64_t holding the whole "
+                                "range; types that hold it: %s)" % (want, holds or "none")})
+        elif with_model:
+            batch.ask("CPPTYPE %d %d" % (lo, hi), real,
+                      {"input": "range %d %d" % (lo, hi), "range": [str(lo), str(hi)]}, "cpptype")
+    return bad
+
+
+# --- the template arguments in the generated header ------------------------------------------
+CPPFN = {"ADDITION": "Sum", "SUBTRACTION": "Difference", "MULTIPLICATION": "Product",
+         "EQUALITY": "Equal", "INEQUALITY": "NotEqual", "AND": "And", "OR": "Or", "LESS": "LessThan",
+         "LESS_OR_EQUAL": "LessThanOrEqual", "GREATER": "GreaterThan",
+         "GREATER_OR_EQUAL": "GreaterThanOrEqual", "CHOICE": "Choice", "MAXIMUM": "Maximum"}
+_CALL_RE = None
+
+
+def header_calls(h):
+    """multiset of (Op, IntermediateT, ResultT, ArgT…) over every `::emboss::support::<Op></**/…>(`
+    in the header text"""
+    import collections
+    import re
+    global _CALL_RE
+    if _CALL_RE is None:
+        _CALL_RE = re.compile(r"::emboss::support::(\w+)</\*\*/([^<>()]*)>\(")
+    out = collections.Counter()
+    for m in _CALL_RE.finditer(h):
+        if m.group(1) not in CPPFN.values():
+            continue
+        args = tuple(CPPNAME.get(a.strip(), "enum") for a in m.group(2).split(","))
+        out[(m.group(1),) + args] += 1
+    return out
+
+
+def rendered_calls(expr, out):
+    """the function nodes `_render_expression` turns into calls, preorder: a constant-typed node
+    is a literal (its operands are not rendered), `$present` is `has_x()`, bound functions are
+    constants"""
+    if _const_type(expr.type) or expr.which_expression != "function":
+        return
+    if expr.function.function.name not in CPPFN:
+        return
+    out.append(expr)
+    for a in expr.function.args:
+        rendered_calls(a, out)
+
+
+def spec_sig(expr):
+    """(Op, IntermediateT, ResultT, ArgT…) the property asks for: every clause in the first type
+    that holds its inferred range, the operation in the first type that holds all of them."""
+    names, ints = [], []
+    for c in [expr] + list(expr.function.args):
+        w = c.type.which_type
+        if w == "integer":
+            r = finite_range(c.type)
+            if r is None:
+                return None
+            ints.append(r)
+            names.append(spec_ctype(*r))
+        elif w == "boolean":
+            names.append("bool")
+        elif w == "enumeration":
+            names.append("enum")
+        else:
+            return None
+    if ints:
+        it = spec_ctype(min(r[0] for r in ints), max(r[1] for r in ints))
+    else:
+        it = "enum" if "enum" in names else "bool"
+    return (CPPFN[expr.function.function.name], it) + tuple(names)
+
+
+def check_header(chk, text, ir_full, batch, stats, origin, with_model, modules, let_roots):
+    """Tie of `Model/CppArith.lean` (`nodeSig`/`opSigs`, `cppTypeForRange`) to the *header text*:
+    the template arguments of every Sum/Difference/Product/Maximum/Equal/…/Choice call.
+    H = calls in the header, L = calls expected for the virtual fields' definitions, A = calls
+    expected for every expression of the module: L ⊆ H ⊆ A, with the expectation computed
+    (a) from the property (`spec_sig`, no model) and (b) by the model (`SIG` on the real
+    annotations of result :: operands)."""
+    from compiler.back_end.cpp import header_generator
+    ctx = {"input": text, "origin": origin}
+    try:
+        h, herrs = header_generator.generate_header(ir_full)
+    except Exception as e:  # noqa: BLE001
+        key = crash_key(e)
+        stats["header:" + key] = stats.get("header:" + key, 0) + 1
+        chk.violation("input", dict(ctx, observed="header_generator.generate_header raised %s: %s"
+                                    % (type(e).__name__, e),
+                                    expected="a header for a module the front end accepted",
+                                    crash_site=key), key=key)
+        return
+    if herrs or h is None:
+        stats["header:back-end-errors"] = stats.get("header:back-end-errors", 0) + 1
+        return
+    stats["headers"] = stats.get("headers", 0) + 1
+    H = header_calls(h)
+    stats["header_calls"] = stats.get("header_calls", 0) + sum(H.values())
+    all_nodes, let_nodes = [], []
+    for expr, top, attr, enumv in iter_expressions(modules):
+        if top:
+            rendered_calls(expr, all_nodes)
+    for root in let_roots:
+        rendered_calls(root, let_nodes)
+    stats["header_let_nodes"] = stats.get("header_let_nodes", 0) + len(let_nodes)
+    bad_spec = [0]
+
+    def compare(sig_of, kind):
+        L = {}
+        for n in let_nodes:
+            L.setdefault(sig_of(n), n)
+        A = set(sig_of(n) for n in all_nodes)
+        msgs = []
+        for sg, n in L.items():
+            if sg is not None and sg not in H:
+                same_op = sorted(" ".join(k) for k in H if k[0] == sg[0])
+                msgs.append(dict(where=str(n.source_location), tree=atree(n),
+                                 observed="no call %s in the header; %s calls present: %s"
+                                          % (" ".join(sg), sg[0], same_op[:6]),
+                                 expected="%s (%s)" % (" ".join(sg), kind)))
+        for k in H:
+            if k not in A:
+                msgs.append(dict(observed="header call %s" % " ".join(k),
+                                 expected="only calls for the module's run-time operations (%s): %s"
+                                          % (kind, sorted(" ".join(x) for x in A if x and x[0] == k[0])[:6])))
+        return msgs
+    for k in H:
+        if "none" in k:
+            bad_spec[0] += 1
+            chk.violation("input", dict(ctx, observed="header call %s" % " ".join(k),
+                                        expected="a C++ type for every template argument (the generator "
+                                                 "printed None: no 64-bit type holds the range)"))
+            break
+    for m in compare(spec_sig, "first C++ type holding the inferred ranges")[:2]:
+        bad_spec[0] += 1
+        chk.violation("input", dict(ctx, **m))
+    if with_model:
+        idx = {}
+        for n in all_nodes + let_nodes:
+            if id(n) in idx:
+                continue
+            tys = [atype_of(c.type) for c in [n] + list(n.function.args)]
+            if any(t is None for t in tys):
+                continue
+            idx[id(n)] = batch.query("SIG " + " ".join(tys))
+        stats["header_sig_queries"] = stats.get("header_sig_queries", 0) + len(idx)
+
+        def judge(answers):
+            def model_sig(n):
+                i = idx.get(id(n))
+                if i is None or answers[i] in ("raise", "bad-op"):
+                    return None
+                return (CPPFN[n.function.function.name],) + tuple(answers[i].split(" "))
+            if bad_spec[0]:
+                return
+            for m in compare(model_sig, "model nodeSig")[:2]:
+                chk.violation("correspondence", dict(ctx, theorem_or_correspondence=
+                                                     "model_c05 SIG (CppArith.nodeSig) vs header text", **m),
+                              found_input=False)
+        batch.post.append(judge)
+
+
 # ------------------------------------------------------------------ generator
 BOUNDARY = [0, 1, 2, 3, 5, 7, 10, 100, 255, 256, 2 ** 31 - 1, 2 ** 31, 2 ** 32 - 1, 2 ** 32,
             TWO63 - 1, TWO63, TWO64 - 1, TWO64, 2 ** 70]
@@ -439,8 +744,9 @@ WIDTHS = [1, 2, 3, 4, 5, 7, 8, 9, 12, 13, 15, 16, 17, 24, 31, 32, 33, 48, 63, 64
 class Gen:
     """Type-directed random expressions over the leaves of one container."""
 
-    def __init__(self, r, leaves, bools, enums, lets, big):
+    def __init__(self, r, leaves, bools, enums, lets, big, presents=()):
         self.r, self.leaves, self.bools, self.enums, self.lets, self.big = r, leaves, bools, enums, lets, big
+        self.presents = list(presents)    # [(leaf, existence-condition ast)]
 
     def const(self):
         r = self.r
@@ -483,8 +789,12 @@ class Gen:
                 return ("t",) if r.random() < 0.5 else ("f",)
             if k < 0.6 and self.bools:
                 return ("bleaf", r.choice(self.bools))
+            if k < 0.75 and self.presents:
+                return ("present",) + r.choice(self.presents)
             return ("bin", r.choice(["eq", "ne", "lt", "le", "gt", "ge"]), self.int(0), self.int(0))
         k = r.random()
+        if k < 0.08 and self.presents:
+            return ("present",) + r.choice(self.presents)
         if k < 0.5:
             return ("bin", r.choice(["eq", "ne", "lt", "le", "gt", "ge"]), self.int(d - 1), self.int(d - 1))
         if k < 0.75:
@@ -518,6 +828,8 @@ def emb_text(a):
         return a[1][0]
     if k == "ref":
         return a[1][0]
+    if k == "present":
+        return "$present(%s)" % a[1][0]
     if k == "bin":
         return "(%s %s %s)" % (emb_text(a[2]), SEXP_OP[a[1]], emb_text(a[3]))
     if k == "choice":
@@ -553,6 +865,9 @@ def sexp(a):
         # a field_reference to an earlier virtual field: the model's `vref` constructor
         # (type copied from the definition, constant_value unknown, a leaf for the gate)
         return "(vref %s)" % sexp(a[1][1])
+    if k == "present":
+        # $present(field) with the field's existence condition: the model's `present` node
+        return "(present %s %s)" % (sexp(("leaf", a[1])), sexp(a[2]))
     if k == "bin":
         return "(%s %s %s)" % (SEXP_OP[a[1]], sexp(a[2]), sexp(a[3]))
     if k == "choice":
@@ -566,8 +881,9 @@ def sexp(a):
     raise AssertionError(a)
 
 
-def gen_module(r, n_lets=6, depth=3, big=False, dynamic=False):
-    """Returns (text, lets [(name, ast, line)], features)."""
+def gen_module(r, n_lets=6, depth=3, big=False, dynamic=False, widths=None):
+    """Returns (text, lets [(name, ast, line)], features).  `widths`: draw every bit-field
+    width from this list (the 64-bit-edge stream)."""
     lines = ['[$default byte_order: "LittleEndian"]', "enum En:", "  AA = 1", "  BB = 7", "  CC = 100"]
     leaves, bools, enums = [], [], []
     lid = [0]
@@ -599,6 +915,8 @@ def gen_module(r, n_lets=6, depth=3, big=False, dynamic=False):
         for i in range(r.randint(1, 5)):
             kind = r.choice(["uint", "uint", "sint", "sint", "bcd"])
             w = r.choice(WIDTHS) if (big or r.random() < 0.3) else r.choice([1, 2, 3, 4, 5, 7, 8, 9, 12, 16])
+            if widths:
+                w = r.choice(widths)
             lines.append("  0 [+%d] %s a%d" % (w, {"uint": "UInt", "sint": "Int", "bcd": "Bcd"}[kind], i))
             leaves.append(("a%d" % i, kind, w, nid()))
         if r.random() < 0.6:
@@ -607,8 +925,31 @@ def gen_module(r, n_lets=6, depth=3, big=False, dynamic=False):
         if r.random() < 0.5:
             lines.append("  0 [+7] En en")
             enums.append(("en", nid()))
+    presents = []
+    if not dynamic and r.random() < 0.45:
+        # conditional fields (`if c:`), for `$present(f)`; conditions are simple (no bound functions)
+        g0 = Gen(r, list(leaves), list(bools), [], [], False)
+        presents.append((r.choice([l for l in leaves if not l[0].startswith("p")]), ("t",)))
+        for i in range(r.randint(1, 2)):
+            k = r.random()
+            if k < 0.3 and bools:
+                cond = ("bleaf", r.choice(bools))
+            elif k < 0.8:
+                cond = ("bin", r.choice(["eq", "ne", "lt", "le", "gt", "ge"]),
+                        ("leaf", r.choice(leaves)), ("c", r.randint(0, 9)))
+            else:
+                cond = ("bin", r.choice(["and", "or"]),
+                        ("bin", r.choice(["lt", "ge"]), ("leaf", r.choice(leaves)), ("c", r.randint(0, 9))),
+                        ("bin", "ne", ("leaf", r.choice(leaves)), ("c", r.randint(0, 3))))
+            kind = r.choice(["uint", "sint"])
+            w = r.choice(widths or [1, 3, 8, 16, 32])
+            lines.append("  if %s:" % emb_text(cond))
+            lines.append("    0 [+%d] %s c%d" % (w, {"uint": "UInt", "sint": "Int"}[kind], i))
+            leaf = ("c%d" % i, kind, w, nid())
+            presents.append((leaf, cond))
+            leaves.append(leaf)
     lets = []
-    g = Gen(r, leaves, bools, enums, [], big)
+    g = Gen(r, leaves, bools, enums, [], big, presents)
     for i in range(n_lets):
         k = r.random()
         ast = g.int(depth) if k < 0.8 else g.bool(depth)
@@ -618,6 +959,43 @@ def gen_module(r, n_lets=6, depth=3, big=False, dynamic=False):
         if ast_is_int(ast):
             g.lets.append((name, ast))
     return "\n".join(lines) + "\n", lets
+
+
+EDGE_LEAVES = [("u64", "uint", 64), ("i64", "sint", 64), ("u63", "uint", 63), ("u32", "uint", 32),
+               ("i32", "sint", 32), ("u8", "uint", 8), ("i8", "sint", 8)]
+EDGE_WIDTHS = [1, 8, 31, 32, 33, 62, 63, 64, 64]
+
+
+def edge_modules(per_module=8):
+    """Boundary enumeration around the int64/uint64/int32/uint32 edges: every wide leaf combined
+    by one operator with a small constant, a constant at 2^31/2^32/2^63, a narrow leaf or another
+    wide leaf — `W + S`, `W - S`, `S - W`, `W * S`, `W < S`, `W == S`, `fl ? W : S`, `$max(W, S)`.
+    Deterministic.  Yields (text, lets)."""
+    head = ['[$default byte_order: "LittleEndian"]', "enum En:", "  AA = 1", "  BB = 7", "  CC = 100",
+            "bits Foo:"]
+    leaves = {}
+    for i, (nm, kind, w) in enumerate(EDGE_LEAVES, 1):
+        head.append("  0 [+%d] %s %s" % (w, {"uint": "UInt", "sint": "Int"}[kind], nm))
+        leaves[nm] = ("leaf", (nm, kind, w, i))
+    head.append("  0 [+1] Flag fl")
+    fl = ("bleaf", ("fl", len(EDGE_LEAVES) + 1))
+    neg1 = ("bin", "sub", ("c", 0), ("c", 1))
+    smalls = [("c", 0), ("c", 1), ("c", 2), neg1, ("c", 2 ** 31), ("c", 2 ** 32), ("c", TWO63)] + \
+             [leaves[n] for n in ("u8", "i8", "u32", "i32", "u64", "i64")]
+    asts = []
+    for wn in ("u64", "i64", "u63", "u32", "i32"):
+        W = leaves[wn]
+        for S in smalls:
+            asts += [("bin", "add", W, S), ("bin", "sub", W, S), ("bin", "sub", S, W),
+                     ("bin", "mul", W, S), ("bin", "lt", W, S), ("bin", "eq", W, S),
+                     ("choice", fl, W, S), ("max", [W, S])]
+    for at in range(0, len(asts), per_module):
+        lines = list(head)
+        lets = []
+        for i, ast in enumerate(asts[at:at + per_module]):
+            lines.append("  let v%d = %s" % (i, emb_text(ast)))
+            lets.append(("v%d" % i, ast, len(lines)))
+        yield "\n".join(lines) + "\n", lets
 
 
 def ast_is_int(a):
@@ -679,6 +1057,8 @@ def py_eval(a, env, ann, out=None):
         v = t if c else f
     elif k == "max":
         v = max([py_eval(x, env, ann, out) for x in a[1]])
+    elif k == "present":
+        v = py_eval(a[2], env, ann)         # the field is present iff its existence condition holds
     elif k in ("ub", "lb"):
         e = ann.get(id(a))
         if e is None:
@@ -716,6 +1096,8 @@ def collect_leaves(a, acc):
     k = a[0]
     if k in ("leaf", "bleaf", "eleaf"):
         acc[a[1][0]] = a
+    elif k == "present":
+        collect_leaves(a[2], acc)
     elif k == "ref":
         collect_leaves(a[1][1], acc)
     elif k == "bin":
@@ -869,6 +1251,60 @@ def oracle_expression(chk, text, name, ast, root_expr, ir, r, stats):
                         "input": text, "expression": name, "observed": atype_of(t),
                         "expected": "tight: both ends attained for a linear expression without "
                                     "repeated variables; corner values %s" % sorted(got)[:8]})
+    # tightness of `?:` with an independent, non-constant condition (`C05_tight_choice_independent`):
+    # single-occurrence branches over disjoint leaves, a condition over other leaves that the
+    # analysis did not fold and that attains both truth values
+    if t.which_type == "integer" and ast[0] == "choice":
+        cnd, tb, fb = ast[1], ast[2], ast[3]
+        seen = set()
+        cexpr = ann.get(id(cnd))
+        if linear_once(tb, seen) and linear_once(fb, seen) and cexpr is not None \
+                and not cexpr.type.boolean.has_field("value"):
+            cl = {}
+            collect_leaves(cnd, cl)
+            mn, mx = t.integer.minimum_value, t.integer.maximum_value
+            if not (set(cl) & seen) and mn != "-infinity" and mx != "infinity" and len(seen) <= 10:
+                cnames = sorted(cl)
+                cdoms = []
+                for n in cnames:
+                    a = cl[n]
+                    cdoms.append(leaf_values(a[1], r, True) if a[0] == "leaf"
+                                 else [False, True] if a[0] == "bleaf" else [0, 1, 7, 100, 127])
+                size = 1
+                for d in cdoms:
+                    size *= len(d)
+                truth = set()
+                if size <= 4096:
+                    for tup in itertools.product(*cdoms):
+                        try:
+                            truth.add(bool(py_eval(cnd, dict(zip(cnames, tup)), ann)))
+                        except (ValueError, KeyError):
+                            pass
+                        if len(truth) == 2:
+                            break
+                if len(truth) == 2:
+                    bl = {}
+                    collect_leaves(tb, bl)
+                    collect_leaves(fb, bl)
+                    bnames = sorted(bl)
+                    corners = []
+                    for n in bnames:
+                        vs = leaf_values(bl[n][1], r, False)
+                        corners.append([vs[0], vs[-1]])
+                    got = set()
+                    for tup in itertools.product(*corners):
+                        env = dict(zip(bnames, tup))
+                        got.add(py_eval(tb, env, ann))
+                        got.add(py_eval(fb, env, ann))
+                    stats["tight_choice_checked"] = stats.get("tight_choice_checked", 0) + 1
+                    if int(mn) not in got or int(mx) not in got:
+                        bad += 1
+                        chk.violation("input", {
+                            "input": text, "expression": name, "observed": atype_of(t),
+                            "expected": "tight: both ends attained for `c ? t : f` with single-occurrence "
+                                        "branches and an independent condition that is true for some "
+                                        "values and false for others; branch corner values %s"
+                                        % sorted(got)[:8]})
     return bad
 
 
@@ -907,8 +1343,10 @@ def find_let(ir, name):
     return None
 
 
-def run_generated(chk, r, batch, stats, with_model, n_lets, depth, big, dynamic, oracle=True):
-    text, lets = gen_module(r, n_lets, depth, big, dynamic)
+def run_generated(chk, r, batch, stats, with_model, n_lets, depth, big, dynamic, oracle=True, widths=None):
+    text, lets = gen_module(r, n_lets, depth, big, dynamic, widths)
+    if widths:
+        stats["edge_width_modules"] = stats.get("edge_width_modules", 0) + 1
     return run_text(chk, r, batch, stats, text, lets, with_model, "generated", oracle)
 
 
@@ -946,6 +1384,52 @@ def run_text(chk, r, batch, stats, text, lets, with_model, origin, oracle=True):
         return
     if with_model:
         check_module_nodes(chk, text, ir, errs, batch, stats, origin)
+    gate_oracle(chk, text, ir, errs, stats, origin)
+    full_roots = {}
+    if errs and lets and not origin.endswith("-accepted"):
+        # the header exists only for a module without errors: resubmit the lets no error points
+        # at (and that do not refer to a dropped one) as a module of their own, for the header tie
+        err_lines = set()
+        for g in emb.error_summary(errs):
+            for (_f, loc, _sev, _msg) in g:
+                try:
+                    a, b = loc.split("-")
+                    err_lines.update(range(int(a.split(":")[0]), int(b.split(":")[0]) + 1))
+                except ValueError:
+                    pass
+        dropped = set(n for n, _a, ln in lets if ln in err_lines)
+        changed = True
+        while changed:
+            changed = False
+            for n, a, ln in lets:
+                if n not in dropped and ref_names(a) & dropped:
+                    dropped.add(n)
+                    changed = True
+        keep = [(n, a, ln) for n, a, ln in lets if n not in dropped]
+        all_lines = text.split("\n")
+        let_lines = set(ln for _n, _a, ln in lets)
+        if keep and len(keep) < len(lets) and not (err_lines - let_lines):
+            kept_ln = set(ln for _n, _a, ln in keep)
+            out_lines, new_lets = [], []
+            for i, l in enumerate(all_lines, 1):
+                if i in let_lines and i not in kept_ln:
+                    continue
+                out_lines.append(l)
+                if i in kept_ln:
+                    n, a = [(n, a) for n, a, ln in keep if ln == i][0]
+                    new_lets.append((n, a, len(out_lines)))
+            stats["accepted_resubmitted"] = stats.get("accepted_resubmitted", 0) + 1
+            run_text(chk, r, batch, stats, "\n".join(out_lines), new_lets, with_model,
+                     origin + "-accepted", oracle=False)
+    if not errs:
+        # accepted by the front end: generate the header and tie its template arguments
+        ir_full, errors_full, exc_full = emb.compile_text({"m.emb": text})
+        if exc_full is None and ir_full is not None and not errors_full:
+            mods = [m for m in ir_full.module if m.source_file_name == "m.emb"]
+            roots = virtual_roots(mods)
+            full_roots = dict(roots)
+            check_header(chk, text, ir_full, batch, stats, origin, with_model, mods,
+                         [e for _n, e in roots])
     gk = gate_kinds_by_line(errs)
     for name, ast, line in lets:
         root = find_let(ir, name)
@@ -960,13 +1444,62 @@ def run_text(chk, r, batch, stats, text, lets, with_model, origin, oracle=True):
             stats["tree_queries"] = stats.get("tree_queries", 0) + 1
             if has_ref(ast):
                 stats["tree_queries_with_vref"] = stats.get("tree_queries_with_vref", 0) + 1
+            if "(present " in sexp(ast):
+                stats["tree_queries_with_present"] = stats.get("tree_queries_with_present", 0) + 1
             kinds = sorted(k for (_, k) in gk.get(line, []))
             want_gate = "ok" if not kinds else "err " + ",".join(kinds)
             batch.ask("TREE " + sexp(ast), "abs=%s cv=%s gate=%s" % (t, cv_of(root), want_gate),
                       {"input": text, "expression": name, "origin": origin}, "tree")
+            # the typing discipline of `C05_no_crash` (Model/ExprType.lean `tyOf`) agrees with
+            # the type the real front end assigned
+            batch.ask("TYOF " + sexp(ast), {"integer": "int", "boolean": "bool",
+                                            "enumeration": "enum"}.get(root.type.which_type, "?"),
+                      {"input": text, "expression": name, "origin": origin}, "tyof")
+            if name in full_roots:
+                # whole tree: the calls the model emits for the generator's description of the
+                # expression (its own annotations) == the calls expected on the real annotations
+                nodes = []
+                rendered_calls(full_roots[name], nodes)
+                sigs = [spec_sig(n) for n in nodes]
+                if all(sg is not None for sg in sigs):
+                    stats["sigs_queries"] = stats.get("sigs_queries", 0) + 1
+                    batch.ask("SIGS " + sexp(ast),
+                              " ".join(["sigs"] + ["%s:%s" % (sg[0], ",".join(sg[1:])) for sg in sigs]),
+                              {"input": text, "expression": name, "origin": origin}, "sigs")
         if oracle:
             oracle_expression(chk, text, name, ast, root, ir, r, stats)
         chk.sample({"emb": "let %s = %s" % (name, emb_text(ast)), "annotation": t}, limit=5)
+
+
+def virtual_roots(modules):
+    """(name, read_transform) of every virtual field of the modules' structures (sub-types too)"""
+    out = []
+
+    def types(ts):
+        for t in ts:
+            types(t.subtype)
+            if t.has_field("structure"):
+                for f in t.structure.field:
+                    if f.has_field("read_transform"):
+                        out.append((f.name.name.text, f.read_transform))
+    for m in modules:
+        types(m.type)
+    return out
+
+
+def ref_names(a):
+    k = a[0]
+    if k == "ref":
+        return {a[1][0]} | ref_names(a[1][1])
+    if k == "bin":
+        return ref_names(a[2]) | ref_names(a[3])
+    if k == "choice":
+        return ref_names(a[1]) | ref_names(a[2]) | ref_names(a[3])
+    if k == "max":
+        return set().union(*[ref_names(x) for x in a[1]])
+    if k in ("ub", "lb"):
+        return ref_names(a[1])
+    return set()
 
 
 def has_ref(a):
@@ -1002,6 +1535,7 @@ def inline_refs(a):
 def settle(chk, batch, stats):
     """Send all queries to the model and judge the answers."""
     if not batch.lines:
+        batch.post = []
         return
     answers = common.Model("model_c05").ask(batch.lines)
     dis = 0
@@ -1010,6 +1544,8 @@ def settle(chk, batch, stats):
         ok = ans == expected
         if kind == "gate":
             ok = sorted_gate(ans) == expected
+        elif kind == "sigs":
+            ok = ans.split() == expected.split()
         elif kind == "treeprefix":
             ok = ans.startswith(expected + " ")
         elif kind == "treecrash":
@@ -1027,15 +1563,17 @@ def settle(chk, batch, stats):
                   "theorem_or_correspondence": "model_c05 %s vs expression_bounds/constraints" % kind})
         # spec oracle on the disagreeing input: does the real code violate the property there?
         found = 0
-        if "input" in ctx and kind != "treecrash":
+        if "input" in ctx and kind not in ("treecrash", "cpptype"):
             found = respec(chk, ctx["input"])
         if not found:
             d["expected"] = "real code satisfies the spec oracle on this input; the model differs"
             chk.violation("correspondence", d, found_input=False)
+    for cb in batch.post:
+        cb(answers)
     stats["disagreements"] = stats.get("disagreements", 0) + dis
     chk.extra["traces_validated_against_impl"] = \
         chk.extra.get("traces_validated_against_impl", 0) + len(batch.lines)
-    batch.lines, batch.checks = [], []
+    batch.lines, batch.checks, batch.post = [], [], []
 
 
 def respec(chk, text):
@@ -1066,7 +1604,19 @@ def parse_lets(text):
         lid[0] += 1
         return lid[0]
     lets, env = [], {}
+    _PRESENTS.clear()
+    cur_if = None
     for ln, line in enumerate(text.split("\n"), 1):
+        m = re.match(r"(\s+)if (.*):\s*$", line)
+        if m:
+            try:
+                cond, rest = parse_expr(tokenize(m.group(2)), leaves, bools, enums, env)
+            except (IndexError, KeyError, ValueError, AssertionError):
+                return []
+            if rest:
+                return []
+            cur_if = (len(m.group(1)), cond)
+            continue
         m = re.match(r"\s*(?:bits|struct) \w+\((.*)\):", line)
         if m:
             for p in m.group(1).split(","):
@@ -1074,9 +1624,11 @@ def parse_lets(text):
                 if mm:
                     leaves[mm.group(1)] = (mm.group(1), {"UInt": "uint", "Int": "sint"}[mm.group(2)],
                                            int(mm.group(3)), nid())
-        m = re.match(r"\s+(\w+) \[\+(\w+)\] (UInt|Int|Bcd|Flag|En) (\w+)", line)
+        m = re.match(r"(\s+)(\w+) \[\+(\w+)\] (UInt|Int|Bcd|Flag|En) (\w+)", line)
         if m:
-            off, sz, ty, nm = m.groups()
+            ind, off, sz, ty, nm = m.groups()
+            if cur_if is not None and len(ind) <= cur_if[0]:
+                cur_if = None
             unit = 8 if "struct " in text and "bits " not in text else 1
             if ty == "Flag":
                 bools[nm] = (nm, nid())
@@ -1085,17 +1637,21 @@ def parse_lets(text):
             else:
                 size = int(sz) * unit if sz.isdigit() else None
                 leaves[nm] = (nm, {"UInt": "uint", "Int": "sint", "Bcd": "bcd"}[ty], size, nid())
+                _PRESENTS[nm] = (leaves[nm], cur_if[1] if cur_if is not None else ("t",))
         m = re.match(r"\s+let (\w+) = (.*)$", line)
         if m:
             try:
                 ast, rest = parse_expr(tokenize(m.group(2)), leaves, bools, enums, env)
-            except (IndexError, KeyError, ValueError):
+            except (IndexError, KeyError, ValueError, AssertionError):
                 return []
             if rest:
                 return []
             lets.append((m.group(1), ast, ln))
             env[m.group(1)] = ast
     return lets
+
+
+_PRESENTS = {}     # field name → (leaf, existence-condition ast), filled by parse_lets
 
 
 def tokenize(s):
@@ -1120,6 +1676,9 @@ def parse_expr(toks, leaves, bools, enums, env):
         b, rest = parse_expr(rest[1:], leaves, bools, enums, env)
         assert rest[0] == ")"
         return ("bin", name, a, b), rest[1:]
+    if t == "$present":
+        assert toks[1] == "(" and toks[3] == ")"
+        return ("present",) + _PRESENTS[toks[2]], toks[4:]
     if t in ("$max", "$upper_bound", "$lower_bound"):
         assert toks[1] == "("
         args, rest = [], toks[2:]
@@ -1168,6 +1727,26 @@ CORPUS = [
            "  let v1 = ((a1 * 20) + 15)\n  let v2 = (v0 * v1)\n  let v3 = $max(v0, v1, 35)\n"
            "  let v4 = ((a0 > 5) ? v0 : v1)\n",
     DYN + "  let v0 = (dyn + 1)\n  let v1 = $max(dyn, 3)\n  let v2 = (dyn * a0)\n",
+    # F8 (fixed: $upper_bound/$lower_bound of an infinite bound is the unbounded annotation,
+    # no "constant infinity"); a revert raises ValueError / TypeError / AssertionError
+    DYN + "  let v0 = ($upper_bound(dyn) * 2)\n",
+    DYN + "  let v0 = ($upper_bound(dyn) + a0)\n",
+    DYN + "  let v0 = ($upper_bound(dyn) - $upper_bound(dyn))\n",
+    DYN + "  let v0 = ((a0 > 3) ? $upper_bound(dyn) : a0)\n",
+    DYN + "  let v0 = ($lower_bound((dyn - 3)) * 2)\n  let v1 = $max($upper_bound(dyn), a0)\n",
+    # constant_value of $upper_bound/$lower_bound (fixed: read from the annotation); a revert
+    # raises KeyError.  The third one distinguishes "value of the argument" from "inferred bound".
+    HEAD + "bits Foo:\n  0 [+8] UInt a0\n  let v0 = ($upper_bound(3) == 3)\n",
+    HEAD + "bits Foo:\n  0 [+8] UInt a0\n  let v0 = (($lower_bound((a0 + 1)) == 1) && ($upper_bound((a0 * 2)) == 510))\n",
+    HEAD + "bits Foo:\n  0 [+8] UInt a0\n  let v0 = ($upper_bound(((false && (a0 == 1)) ? a0 : 3)) == 255)\n",
+    # $present: unconditional (constant-typed, constant_value unknown), conditional, inside && and ?:
+    HEAD + "bits Foo:\n  0 [+8] UInt a0\n  0 [+1] Flag fl\n  if (a0 > 3):\n    0 [+4] Int c0\n  if fl:\n    0 [+64] UInt c1\n"
+           "  let v0 = $present(a0)\n  let v1 = ($present(c0) && (c0 < 2))\n  let v2 = ($present(c1) ? c0 : (a0 + 1))\n"
+           "  let v3 = ($present(a0) == true)\n  let v4 = ($present(c0) || $present(c1))\n",
+    # `?:` with an independent condition (C05_tight_choice_independent), nested conditions
+    HEAD + "bits Foo:\n  0 [+8] UInt a0\n  0 [+8] UInt a1\n  0 [+4] Int a2\n  0 [+1] Flag fl\n"
+           "  let v0 = (((a0 > 3) || fl) ? (a1 + 1) : (2 * a2))\n  let v1 = (fl ? (a0 * a1) : $max(a2, 3))\n"
+           "  let v2 = (((a0 + 1) > $upper_bound(a2)) ? (a1 - 7) : (a2 * 3))\n",
 ]
 
 
@@ -1208,8 +1787,9 @@ def testdata_files():
     return out
 
 
-def run_testdata(chk, batch, stats):
-    """The repository's own .emb files: node-wise + gate (all are accepted)."""
+def run_testdata(chk, batch, stats, with_model=True):
+    """The repository's own .emb files: node-wise + gate (all are accepted), model-free gate
+    oracle, header tie."""
     from compiler.front_end import glue, constraints
     import compiler.util.parser_types  # noqa: F401
     d = os.path.join(common.REPO, "testdata")
@@ -1236,7 +1816,18 @@ def run_testdata(chk, batch, stats):
         errs = constraints.check_constraints(ir)
         # only the main module (imports are other testdata files, visited on their own)
         main = [m for m in ir.module if m.source_file_name == "testdata/" + fn]
-        check_module_nodes(chk, "testdata/" + fn, ir, errs, batch, stats, "testdata", modules=main)
+        if with_model:
+            check_module_nodes(chk, "testdata/" + fn, ir, errs, batch, stats, "testdata", modules=main)
+        gate_oracle(chk, "testdata/" + fn, ir, errs, stats, "testdata", modules=main)
+        if not errs:
+            try:
+                ir_full, _dbg, errors_full = glue.parse_emboss_file("testdata/" + fn, reader)
+            except Exception:  # noqa: BLE001
+                ir_full, errors_full = None, ["exception"]
+            if ir_full is not None and not errors_full:
+                mods = [m for m in ir_full.module if m.source_file_name == "testdata/" + fn]
+                check_header(chk, "testdata/" + fn, ir_full, batch, stats, "testdata", with_model, mods,
+                             [e for _n, e in virtual_roots(mods)])
         done += 1
     stats["testdata_files"] = done
 
@@ -1248,14 +1839,24 @@ def search(chk):
     before = len(chk.violations)
     stats = {}
     batch = Batch()
+    check_cpptypes(chk, batch, stats, False, edge_ranges())
     for text in CORPUS:
         lets = parse_lets(text)
         run_text(chk, r, batch, stats, text, lets, False, "corpus")
-    for i in range(250):
-        run_generated(chk, r, batch, stats, False, r.randint(2, 6), r.choice([1, 2, 2, 3]),
-                      r.random() < 0.3, r.random() < 0.15)
+    if len(chk.violations) - before < 3:
+        run_testdata(chk, batch, stats, with_model=False)
+    for text, lets in edge_modules():
         if len(chk.violations) - before >= 3:
             break
+        run_text(chk, r, batch, stats, text, lets, False, "edge")
+    for i in range(250):
+        if len(chk.violations) - before >= 3:
+            break
+        edge = r.random() < 0.2
+        run_generated(chk, r, batch, stats, False, r.randint(2, 6), r.choice([1, 2, 2, 3]),
+                      edge or r.random() < 0.3, (not edge) and r.random() < 0.15,
+                      widths=EDGE_WIDTHS if edge else None)
+    check_cpptypes(chk, batch, stats, False, sorted(RANGES))
     chk.extra["search_stats"] = stats
     return len(chk.violations) - before
 
@@ -1266,8 +1867,10 @@ def run(tier):
                        "queries + spec-oracle environments are counted separately in `stats`); "
                        "non-trivial = a generated `let` expression (distinct by text) or a crashing module")
     chk.trusted.append("Python oracle (harness/corr/C05.py: py_eval, in_gamma) for the model-free search")
-    chk.assumptions.append("virtual-field references and $present are represented in the model by the "
-                           "referenced expression; the copy is checked node-wise in Python")
+    chk.assumptions.append("references to virtual fields and $present(field) are the model constructors "
+                           "`vref e` / `present a c` carrying the referenced definition / existence "
+                           "condition; that the real annotation is a copy of that expression's is "
+                           "checked node-wise in Python on every such node")
     if tier == "thorough":
         EXHAUSTIVE_LIMIT[0], SAMPLES[0] = 2 ** 14, 1500
     model_ok = common.proof_gate(chk, search)
@@ -1275,21 +1878,27 @@ def run(tier):
     stats = {}
     batch = Batch()
     pinned_findings(chk, r, batch, stats, model_ok)
+    check_cpptypes(chk, batch, stats, model_ok, edge_ranges())
+    run_testdata(chk, batch, stats, with_model=model_ok)
     if model_ok:
-        run_testdata(chk, batch, stats)
         settle(chk, batch, stats)
     for text in CORPUS:
         run_text(chk, r, batch, stats, text, parse_lets(text), model_ok, "corpus")
+    for text, lets in edge_modules():
+        run_text(chk, r, batch, stats, text, lets, model_ok, "edge")
+        stats["edge_modules"] = stats.get("edge_modules", 0) + 1
     if model_ok:
         settle(chk, batch, stats)
     n = 260 if tier == "quick" else 3000
     for i in range(n):
-        big = r.random() < 0.35
-        dynamic = r.random() < 0.12
+        edge = r.random() < 0.15
+        big = edge or r.random() < 0.35
+        dynamic = (not edge) and r.random() < 0.12
         run_generated(chk, r, batch, stats, model_ok, r.randint(2, 7), r.choice([1, 2, 2, 3, 3, 4]),
-                      big, dynamic)
+                      big, dynamic, widths=EDGE_WIDTHS if edge else None)
         if model_ok and len(batch.lines) > 20000:
             settle(chk, batch, stats)
+    check_cpptypes(chk, batch, stats, model_ok, sorted(RANGES))
     if model_ok:
         settle(chk, batch, stats)
     chk.extra["stats"] = dict(sorted(stats.items()))
@@ -1299,6 +1908,12 @@ def run(tier):
 def replay(path):
     rec = json.load(open(path))
     text = rec.get("input", "")
+    if "range" in rec:
+        from compiler.back_end.cpp import header_generator
+        lo, hi = int(rec["range"][0]), int(rec["range"][1])
+        print("_cpp_integer_type_for_range(%d, %d) = %r; first type holding the range: %s" % (
+            lo, hi, header_generator._cpp_integer_type_for_range(lo, hi), spec_ctype(lo, hi)))
+        return 0
     if text.startswith("testdata/"):
         print("testdata file:", text)
         return 0
@@ -1311,6 +1926,27 @@ def replay(path):
             if root is not None:
                 print("let %s = %s  →  %s  constant_value=%s" % (
                     name, emb_text(ast), atype_of(root.type), cv_of(root)))
+        if not errors and not errs:
+            # the header tie: calls in the generated header vs the calls the property asks for
+            ir_full, errors_full, exc_full = emb.compile_text({"m.emb": text})
+            if exc_full is None and ir_full is not None and not errors_full:
+                from compiler.back_end.cpp import header_generator
+                try:
+                    h, _herrs = header_generator.generate_header(ir_full)
+                    print("header calls:", sorted(" ".join(k) for k in header_calls(h or "")))
+                except Exception as e:  # noqa: BLE001
+                    print("generate_header raised", repr(e))
+                nodes = []
+                for _n, root in virtual_roots([m for m in ir_full.module if m.source_file_name == "m.emb"]):
+                    rendered_calls(root, nodes)
+                print("expected for the virtual fields:",
+                      sorted(set(" ".join(sg) for sg in map(spec_sig, nodes) if sg)))
+        if True:
+            why = [(str(e.source_location), spec_gate(e)) for e, top, attr, enumv in
+                   iter_expressions([m for m in ir.module if m.source_file_name == "m.emb"])
+                   if top and attr != "static_requirements" and not enumv and atype_of(e.type)]
+            print("top-level expressions that do not fit one 64-bit type (spec oracle; accepted ones "
+                  "are violations):", [w for w in why if w[1]])
         if "environment" in rec:
             lets = dict((n, a) for n, a, _ in parse_lets(text))
             a = lets.get(rec.get("expression"))
